@@ -16,12 +16,49 @@ CLANG_FLAGS = ['-std=c++20', '-I' + REPO + '/include', '-I' + REPO, '-I' + ROOT 
 class Job:
     def __init__(s, name, unit, entry, args=(), merge=(), reach=(), bounds='', engine='S', timeout=600, check_ub=True,
                  enum_cap=64, max_paths=200000, max_steps=5_000_000, kf=None, native=True, solver_timeout_ms=120000,
-                 expect_violation=None, extra_units=(), cbmc=None, defines=(), findings=(), redirect=None):
+                 expect_violation=None, extra_units=(), cbmc=None, defines=(), findings=(), redirect=None, snippets=None):
         s.name = name; s.unit = unit; s.entry = entry; s.args = list(args); s.merge = list(merge); s.reach = list(reach)
         s.bounds = bounds; s.engine = engine; s.timeout = timeout; s.check_ub = check_ub; s.enum_cap = enum_cap
         s.max_paths = max_paths; s.max_steps = max_steps; s.kf = dict(kf or {}); s.native = native
         s.solver_timeout_ms = solver_timeout_ms; s.expect_violation = expect_violation; s.extra_units = list(extra_units)
-        s.cbmc = cbmc; s.defines = list(defines); s.findings = list(findings); s.redirect = dict(redirect or {})
+        s.cbmc = cbmc; s.defines = list(defines); s.findings = list(findings); s.redirect = dict(redirect or {}); s.snippets = dict(snippets or {})
+
+def extract_function(path, name):
+    """text of the definition of function `name` in a /repo source file (from the start of its declaration line to the matching
+    closing brace) - used to lift small file-static helpers out of translation units that are too large to include"""
+    src = open(path).read()
+    import re
+    for m in re.finditer(r'^[^\n;{}#]*\b' + re.escape(name) + r'\s*\(', src, re.M):
+        i = src.find('{', m.end())
+        semi = src.find(';', m.end())
+        if i < 0 or (0 <= semi < i): continue          # a declaration or a call, not a definition
+        depth = 0; j = i
+        while j < len(src):
+            if src[j] == '{': depth += 1
+            elif src[j] == '}':
+                depth -= 1
+                if depth == 0: return src[m.start():j + 1]
+            j += 1
+    raise RuntimeError('function %s not found in %s' % (name, path))
+
+def extract_block(path, start_regex):
+    """text from the first match of start_regex up to the brace that closes the first '{' after it (plus a directly following ';')"""
+    import re
+    src = open(path).read()
+    m = re.search(start_regex, src, re.M)
+    if not m: raise RuntimeError('pattern %r not found in %s' % (start_regex, path))
+    i = src.find('{', m.end() - 1 if src[m.end() - 1] == '{' else m.end())
+    depth = 0; j = i
+    while j < len(src):
+        if src[j] == '{': depth += 1
+        elif src[j] == '}':
+            depth -= 1
+            if depth == 0:
+                end = j + 1
+                if src[end:end + 1] == ';': end += 1
+                return src[m.start():end]
+        j += 1
+    raise RuntimeError('unbalanced braces after %r in %s' % (start_regex, path))
 
 def workdir():
     d = os.path.join(ROOT, '.work', str(os.getpid()))
@@ -114,7 +151,8 @@ def native_run(binp, entry, args, model, wd, tag):
         r = subprocess.run([binp, entry, vf] + [str(a) for a in args], capture_output=True, text=True, timeout=120, env=env, errors='replace')
     except subprocess.TimeoutExpired:
         return {'rc': 'timeout', 'out': '', 'err': 'native run timed out (120 s)'}
-    return {'rc': r.returncode, 'out': r.stdout[-4000:], 'err': r.stderr[-3000:]}
+    return {'rc': r.returncode, 'out': r.stdout[-4000:], 'err': r.stderr[:1500] + ('\n...\n' + r.stderr[-1500:] if len(r.stderr) > 1500 else ''),
+            'sanitizer': ('ERROR: AddressSanitizer' in r.stderr) or ('runtime error' in r.stderr) or ('ERROR: LeakSanitizer' in r.stderr)}
 
 def native_confirms(nr, viol):
     """does the native run show the violation the solver predicted?"""
@@ -124,7 +162,7 @@ def native_confirms(nr, viol):
     if rc in (4, 5): return None          # replay mismatch: inconclusive
     if k == 'assert': return 'ASSERT-FAIL' in out
     if k == 'uncaught': return 'UNCAUGHT' in out or 'terminate called' in err
-    if k in ('memory', 'ub'): return ('ERROR: AddressSanitizer' in err) or ('runtime error' in err) or rc == 'timeout'
+    if k in ('memory', 'ub'): return bool(nr.get('sanitizer')) or ('ERROR: AddressSanitizer' in err) or ('runtime error' in err) or rc == 'timeout' or rc in (-11, -6, 139, 134)
     if k in ('terminate', 'abort'): return rc not in (0, 1) or 'terminate' in err
     if k == 'budget': return rc == 'timeout'
     return rc != 0
@@ -179,6 +217,14 @@ def check(pid, tier, seed, wd, only, t0):
     # compile
     units = {}
     try:
+        for j in alljobs:
+            for macro, (relpath, fname) in j.snippets.items():
+                sp = os.path.join(wd, 'snip_%s.inc' % macro)
+                if not os.path.exists(sp):
+                    body = extract_block(os.path.join(REPO, relpath), fname[3:]) if fname.startswith('re:') else extract_function(os.path.join(REPO, relpath), fname)
+                    with open(sp, 'w') as f: f.write('// lifted from %s at check time\n' % relpath + body + '\n')
+                d = '%s="%s"' % (macro, sp)
+                if d not in j.defines: j.defines.append(d)
         for j in alljobs:
             for u in [j.unit] + j.extra_units:
                 key = (u, tuple(j.defines))
@@ -253,7 +299,7 @@ def check(pid, tier, seed, wd, only, t0):
     ev = evidence(pid, tier, seed, results, violations, known_hits, inconclusive, unconfirmed, validated, validation_fail, time.time() - t0, mod)
     os.makedirs(os.path.join(OUT, 'evidence'), exist_ok=True)
     json.dump(ev, open(os.path.join(OUT, 'evidence', pid + '.json'), 'w'), indent=1, default=str)
-    for fid, r in known_hits:
+    for fid in sorted({f for f, r in known_hits}):
         print('KNOWN-FINDING: property=%s %s (%s)' % (pid, known_ids[fid].get('what', fid), fid))
     for r, v, rp in unconfirmed:
         print('UNCONFIRMED (solver counterexample did not reproduce natively; treated as encoding issue, not reported): %s %s %s' % (r['job'], v['kind'], v['msg']))
